@@ -20,6 +20,7 @@ TARGETS = {
     "compiler": ("nsl/Compiler.py", ["Compiler"]),
     "pass": ("nsl/Pass.py", ["PassFlags", "Pass", "MakePassFromVisitor"]),
     "visitor": ("nsl/Visitor.py", ["Node", "Visitor", "DefaultVisitor"]),
+    "linker": ("nsl/LinearIR.py", ["ModuleLoader", "FilesystemModuleLoader", "MemoryModuleLoader", "Program", "Linker"]),
     # methods are addressed as Class.method
     "lower_member": ("nsl/passes/LowerToIR.py", ["LowerToIRVisitor.v_MemberAccessExpression"]),
     "lower_index": ("nsl/passes/LowerToIR.py", ["LowerToIRVisitor.v_ArrayExpression"]),
